@@ -612,7 +612,22 @@ func main() {
 		})
 	}
 	sort.Strings(dlines)
-	db.WriteString(strings.Join(dlines, ",\n") + "\n]\n\nend Jwt.Gen\n")
+	db.WriteString(strings.Join(dlines, ",\n") + "\n]\n\n")
+	// functions present in both packages: is the body textually identical?
+	var same []string
+	for k, d := range digestFacts {
+		if strings.HasPrefix(k, "V2.") {
+			if d1, ok := digestFacts["V1."+strings.TrimPrefix(k, "V2.")]; ok {
+				b := "false"
+				if d1 == d {
+					b = "true"
+				}
+				same = append(same, fmt.Sprintf("  (%q, %s)", strings.TrimPrefix(k, "V2."), b))
+			}
+		}
+	}
+	sort.Strings(same)
+	db.WriteString("/-- functions defined in both v2 and v1compat: are the two bodies textually identical? -/\ndef sameBodyV1V2 : List (String × Bool) := [\n" + strings.Join(same, ",\n") + "\n]\n\nend Jwt.Gen\n")
 	must(os.WriteFile(filepath.Join(*out, "Digests.lean"), []byte(db.String()), 0o644))
 	facts["digests"] = digestFacts
 
